@@ -314,8 +314,21 @@ class Gen:
         if x < 0.2:
             return ctl(r.choice(["and", "within"]), r.choice([ref("int"), ref("uint"), rng(lit(C.mk_int(0)), lit(C.mk_int(10)))]),
                        r.choice([ref("uint"), rng(lit(C.mk_int(-5)), lit(C.mk_int(5))), ref("int")]))
-        if x < 0.35:
+        if x < 0.27:
             return {"k": "enumg", "g": {"galts": [[ent(T(lit(C.mk_int(i))), key=kbare(n)) for n, i in (("a", 1), ("b", 2), ("c", 3))][:r.choice([2, 3])]]}}
+        if x < 0.35:
+            # group-to-choice over members of different kinds: controls, ranges, float / text literals (the alternatives share one validator)
+            def member():
+                y = r.random()
+                if y < 0.4:
+                    return self.ctl_t1()
+                if y < 0.6:
+                    return lit(C.mk_float(r.choice([0.5, 0.25, -1.5, 2.0])))
+                if y < 0.75:
+                    return lit(C.mk_text(self.text()))
+                return self.scalar_t1()
+            ms = [ent(T(member()), key=kbare(n)) for n in ("a", "b", "c", "d")[:r.choice([2, 3, 4])]]
+            return {"k": "enumg", "g": {"galts": [ms]}}
         if x < 0.55 and self.can_ref():
             # generic rule p<T> = [* T] / {k: T} / T / nil
             self.counter += 1
@@ -336,6 +349,20 @@ class Gen:
             if r.random() < 0.3:
                 es.insert(1, ent(T(ref("nil")), 0, 1))
             return arr(es)
+        if x < 0.67 and self.can_ref():
+            # generic / plain GROUP rule used as a map member next to other members (before, after, between)
+            self.counter += 1
+            n = "gm%d" % self.counter
+            generic = r.random() < 0.7
+            inner = T(ref("T")) if generic else T(self.scalar_t1())
+            body = r.choice([sub([[ent(inner, key=kbare("ga"))]]), sub([[ent(inner, key=kbare("ga")), ent(T(ref("tstr")), 0, 1, key=kbare("gb"))]]),
+                             sub([[ent(inner, 0, 1, key=kbare("ga"))]])])
+            self.generic_defs.append(grule(n, body, params=["T"] if generic else []))
+            me = name_ent(n, args=[r.choice([ref("int"), ref("tstr"), self.scalar_t1()])] if generic else [], lo=r.choice([1, 1, 0]), hi=1)
+            others = [ent(T(self.scalar_t1()), lo=r.choice([1, 1, 0]), hi=1, key=kbare(k)) for k in ("x", "y")[:r.choice([1, 2])]]
+            es = others + [me]
+            r.shuffle(es)
+            return mp(es)
         if x < 0.7:
             # socket: $s with 1-2 plugs
             self.counter += 1
